@@ -231,6 +231,13 @@ class ErrDomain:
                 e0.get("opcode") not in ("==", "!=", "<=", ">="):
             lhs, rhs = ks
             fl = self._flag_of(rhs, s) if e0.get("opcode") in ("=", "|=") else None
+            if e0.get("opcode") not in ("=", "|=") and fl is None:
+                # `x += callee()`: the result is consumed by arithmetic, its failure value can no longer be told from a quantity
+                for c in walk(strip(rhs)):
+                    ckc = self._call_kind(c) if c.get("kind") == "CallExpr" else None
+                    if ckc:
+                        self.report("CHK", e0, "result of %s() is combined by `%s` with another value before it is compared with its failure value"
+                                    % (ckc[0], e0.get("opcode")))
             s = self.eval(rhs, s, consumer="assign" if fl is None else "flagged")
             lk = self.key_of(lhs)
             if s is None:
@@ -483,6 +490,10 @@ class ErrDomain:
             if op in ("==", "!=") and v is not None:
                 if v == 0:
                     return (not truth) if op == "==" else truth
+                # a comparison with a value the callee never returns decides nothing (e.g. `== NA` on an EXIT_* status)
+                rc = return_constants(prog, u.callee)
+                if rc is not None and v not in rc:
+                    return None
                 return truth if op == "==" else (not truth)
             return None
         return None
@@ -490,6 +501,37 @@ class ErrDomain:
     # ---- returns ---------------------------------------------------------------------
     def ret(self, n, s):
         self.rets.append((n, dict(s)))
+
+
+_RC_MEMO = {}
+
+
+def return_constants(prog, fn, _depth=0):
+    """the set of integer constants fn can return when every return is a constant or a call of such a function; else None"""
+    key = (id(prog), fn)
+    if key in _RC_MEMO:
+        return _RC_MEMO[key]
+    f = prog.functions.get(fn)
+    if f is None or prog.body(f) is None or _depth > 6:
+        return None
+    _RC_MEMO[key] = None
+    out = set()
+    ce = ConstEval(prog)
+    for m in walk(prog.body(f)):
+        if m.get("kind") == "ReturnStmt" and kids(m):
+            e = strip(kids(m)[0], casts=True)
+            v = ce.try_eval(e)
+            if v is not None:
+                out.add(v)
+            elif e.get("kind") == "CallExpr" and callee_name(e) in prog.functions and callee_name(e) != fn:
+                sub = return_constants(prog, callee_name(e), _depth + 1)
+                if sub is None:
+                    return None
+                out |= sub
+            else:
+                return None
+    _RC_MEMO[key] = out
+    return out
 
 
 def internal_summaries(prog):
